@@ -9,6 +9,7 @@ import (
 	"sort"
 	"strings"
 	"sync"
+	"time"
 )
 
 var plans = map[string]func(cx *CheckCtx) int{}
@@ -290,6 +291,17 @@ func functionalPlan(id string, quickTraces, thoroughTraces int) func(cx *CheckCt
 		}
 		jobs := scenarioJob(id, obsFor(id))
 		jobs = append(jobs, modelJobs(cx, id)...)
+		if id == "C05" || id == "C02" || id == "C07" {
+			// replay of the exhaustive tree-algebra instance MC_Tree (all subsets of a confusing name universe)
+			size := 2
+			if cx.Tier == "thorough" {
+				size = 5
+			}
+			if id == "C05" && cx.Tier == "quick" {
+				size = 3
+			}
+			jobs = append(jobs, treeSubsetJobs(id, size, obsFor(id))...)
+		}
 		jobs = append(jobs, randomJobs(id, n, 12, scale)...)
 		cx.runJobs(jobs, "GoitTrace")
 		return cx.finish("model_checking",
@@ -336,182 +348,115 @@ var modelFor = map[string][]string{
 }
 
 func modelJobs(cx *CheckCtx, id string) []Job {
-	var jobs []Job
-	for _, name := range modelFor[id] {
+	names := append([]string{}, modelFor[id]...)
+	for i, name := range names {
 		if cx.Tier == "thorough" {
 			if _, err := os.Stat(filepath.Join(specDir(), "MC_"+name+"Deep.cfg")); err == nil {
-				name += "Deep"
+				names[i] = name + "Deep"
 			}
 		}
-		jobs = append(jobs, tourJobs(cx, name, obsFor(id), 0)...)
+	}
+	// TLC runs (model check + edge emission) of the instances go in parallel
+	res := make([][]Job, len(names))
+	var wg sync.WaitGroup
+	for i, name := range names {
+		wg.Add(1)
+		go func(i int, name string) {
+			defer wg.Done()
+			res[i] = tourJobs(cx, name, obsFor(id), 0)
+		}(i, name)
+	}
+	var treeMS *ModelStats
+	var treeErr error
+	if id == "C05" || id == "C02" || id == "C07" {
+		wg.Add(1)
+		go func() {
+			defer wg.Done()
+			ms, err := runModelCheck(filepath.Join(cx.Scratch, "mc_Tree"), "Tree", 8, 20*time.Minute)
+			os.RemoveAll(filepath.Join(cx.Scratch, "mc_Tree"))
+			treeMS, treeErr = &ms, err
+		}()
+	}
+	wg.Wait()
+	if treeErr != nil {
+		cx.InfraErr = append(cx.InfraErr, treeErr.Error())
+	} else if treeMS != nil {
+		cx.Models = append(cx.Models, *treeMS)
+	}
+	var jobs []Job
+	for _, j := range res {
+		jobs = append(jobs, j...)
 	}
 	return jobs
 }
 
-func fsPlan(id string) func(cx *CheckCtx) int {
-	return func(cx *CheckCtx) int {
-		mode := FSMode{Crash: id == "C15", Fault: id == "C16", Errnos: defaultErrnos, MaxPerCmd: 0}
-		nRandom := 3
-		if cx.Tier == "thorough" {
-			mode.Errnos = thoroughErrnos
-			mode.KillSample = 10
-			nRandom = 40
-		}
-		stats := &fsStats{ByCmd: map[string]int{}}
-		var smu sync.Mutex
-		var jobs []Job
-		for _, s := range loadScenarios(id) {
-			s := s
-			jobs = append(jobs, Job{Name: "fs-scenario " + s.Name, Make: func(goit string, c *Chunk, rng *rand.Rand) {
-				st := &fsStats{ByCmd: map[string]int{}}
-				var infra []string
-				fsEnumerate(goit, c, s.Steps, nil, s.TZ, mode, rng, s.Name, st, &infra)
-				smu.Lock()
-				mergeStats(stats, st)
-				cx.InfraErr = append(cx.InfraErr, infra...)
-				smu.Unlock()
-			}})
-		}
-		prof := baseProfile("fsrandom")
-		prof.Steps = 25
-		prof.Hostile = 3
-		for i := 0; i < nRandom; i++ {
-			i := i
-			jobs = append(jobs, Job{Name: fmt.Sprintf("fs-random %d", i), Make: func(goit string, c *Chunk, rng *rand.Rand) {
-				// first draw a history with the ordinary random driver, then re-execute it with enumeration
-				base, _ := os.MkdirTemp(scratchBase(), "vfsr")
-				T0 := NewTables()
-				p := *prof
-				tr := runRandom(goit, base, T0, &p, rng, fmt.Sprintf("fsr#%d", i))
-				os.RemoveAll(base)
-				st := &fsStats{ByCmd: map[string]int{}}
-				var infra []string
-				m := mode
-				m.MaxPerCmd = 12
-				fsEnumerate(goit, c, tr.Events, tr.Contents, tr.R.TZ, m, rng, tr.Label, st, &infra)
-				smu.Lock()
-				mergeStats(stats, st)
-				cx.InfraErr = append(cx.InfraErr, infra...)
-				smu.Unlock()
-			}})
-		}
-		cx.runJobs(jobs, "GoitTrace")
-		cx.Extra["fs_cases"] = stats.CrashPoints + stats.FaultPoints
-		cx.Extra["crash_points"] = stats.CrashPoints
-		cx.Extra["fault_points"] = stats.FaultPoints
-		cx.Extra["fault_positions_unreached"] = stats.Unreached
-		cx.Extra["commands_recorded"] = stats.Commands
-		cx.Extra["positions_by_command"] = stats.ByCmd
-		cx.Extra["real_kill_crosschecked"] = stats.KillChecked
-		cx.Extra["real_kill_mismatch"] = stats.KillMismatch
-		cx.Extra["recording_selfcheck_failures"] = stats.Drift
-		if len(stats.Samples) > 0 {
-			cx.Samples = stats.Samples
-		}
-		if stats.KillMismatch > 0 {
-			cx.InfraErr = append(cx.InfraErr, fmt.Sprintf("%d materialised crash states differ from really killed runs", stats.KillMismatch))
-		}
-		what := "crash point = a prefix of the recorded file-system modifications of one command applied to a copy of the pre-state"
-		if id == "C16" {
-			what = "fault position = one recorded file-system call (open/create/read/readdir/write/mkdir/rename/remove) of one command made to fail by strace error injection"
-		}
-		return cx.finish("fault_enumeration",
-			what+"; every position of every modifying command of the corpus (scenarios + seeded random histories) is enumerated; evaluations = positions judged by TLC against the GoitFSProps clauses; distinct = distinct (command line, pre-state digest, position) triples",
-			[]string{"strace -f -y -xx reports the file-system calls faithfully; recording is self-checked (replaying all recorded modifications must reproduce the real post-state)", "kill between two modifications, not power loss: no reordering, no torn writes", "projector is trusted"})
-	}
-}
+// treeUniverse is the path universe of spec/MC_Tree (GoitTree.tla checks the tree algebra on all its subsets up to size 5).
+var treeUniverse = []string{"d/x", "d/y", "d-o", "d.c", "d0", "ad/x", "d x", "d x/y", "d/e/x", "d/e.x", "a", "é/ü"}
 
-func mergeStats(a, b *fsStats) {
-	a.CrashPoints += b.CrashPoints
-	a.FaultPoints += b.FaultPoints
-	a.Unreached += b.Unreached
-	a.KillChecked += b.KillChecked
-	a.KillMismatch += b.KillMismatch
-	a.Commands += b.Commands
-	a.Drift += b.Drift
-	for k, v := range b.ByCmd {
-		a.ByCmd[k] += v
-	}
-	for _, s := range b.Samples {
-		if len(a.Samples) < 6 {
-			a.Samples = append(a.Samples, s)
+// treeSubsetJobs runs, for every subset of the universe up to maxSize, the fixed snapshot read-back scenario on the
+// real binary: write, add, commit, edit all, commit, reset --mixed HEAD@{1}, (observations), remove all, commit
+// (empty snapshot), reset --mixed HEAD@{0}.
+func treeSubsetJobs(id string, maxSize int, obs ObsSpec) []Job {
+	var subsets [][]string
+	n := len(treeUniverse)
+	for mask := 1; mask < 1<<n; mask++ {
+		var s []string
+		for i := 0; i < n; i++ {
+			if mask&(1<<i) != 0 {
+				s = append(s, treeUniverse[i])
+			}
 		}
+		if len(s) > maxSize {
+			continue
+		}
+		// "d x" (file) and "d x/y" cannot both exist in a working tree
+		hasF, hasD := false, false
+		for _, p := range s {
+			hasF = hasF || p == "d x"
+			hasD = hasD || p == "d x/y"
+		}
+		if hasF && hasD {
+			continue
+		}
+		subsets = append(subsets, s)
 	}
-}
-
-func init() {
-	plans["C15"] = fsPlan("C15")
-	plans["C16"] = fsPlan("C16")
-}
-
-func damagePlan(cx *CheckCtx) int {
-	thorough := cx.Tier == "thorough"
-	stats := &dmgStats{ByClass: map[string]int{}, ByKind: map[string]int{}}
-	var smu sync.Mutex
 	var jobs []Job
-	scs := loadScenarios("C19")
-	nRandom := 2
-	if thorough {
-		nRandom = 12
-	}
-	add := func(name string, evs func(goit string, rng *rand.Rand) ([]M, map[string][]byte, int)) {
-		jobs = append(jobs, Job{Name: name, Make: func(goit string, c *Chunk, rng *rand.Rand) {
-			e, cont, tz := evs(goit, rng)
-			st := &dmgStats{ByClass: map[string]int{}, ByKind: map[string]int{}}
-			var infra []string
-			damageEnumerate(goit, c, e, cont, tz, rng, name, thorough, st, &infra)
-			smu.Lock()
-			stats.Cases += st.Cases
-			for k, v := range st.ByClass {
-				stats.ByClass[k] += v
-			}
-			for k, v := range st.ByKind {
-				stats.ByKind[k] += v
-			}
-			if st.MaxRSSKB > stats.MaxRSSKB {
-				stats.MaxRSSKB = st.MaxRSSKB
-			}
-			for _, s := range st.Samples {
-				if len(stats.Samples) < 6 {
-					stats.Samples = append(stats.Samples, s)
+	per := (len(subsets) + 31) / 32
+	for i := 0; i < len(subsets); i += per {
+		j := i + per
+		if j > len(subsets) {
+			j = len(subsets)
+		}
+		part := subsets[i:j]
+		lo := i
+		jobs = append(jobs, Job{Name: fmt.Sprintf("tree-subsets [%d..%d)", i, j), Make: func(goit string, c *Chunk, rng *rand.Rand) {
+			for k, s := range part {
+				sc := &Scenario{Name: fmt.Sprintf("subset#%d", lo+k), TZ: 540}
+				sc.Steps = append(sc.Steps, initEvents()...)
+				var paths []any
+				for _, p := range s {
+					sc.Steps = append(sc.Steps, M{"ev": "write", "p": EscS(p), "data": "v1 " + p})
+					paths = append(paths, EscS(p))
 				}
+				sc.Steps = append(sc.Steps, M{"ev": "add", "paths": []any{"."}}, M{"ev": "commit", "msg": "one"})
+				for _, p := range s {
+					sc.Steps = append(sc.Steps, M{"ev": "write", "p": EscS(p), "data": "v2 " + p})
+				}
+				sc.Steps = append(sc.Steps, M{"ev": "add", "paths": paths}, M{"ev": "commit", "msg": "two"},
+					M{"ev": "reset", "mode": "mixed", "arg": EscS("HEAD@{1}")},
+					M{"ev": "reset", "mode": "hard", "arg": EscS("HEAD@{1}")},
+					M{"ev": "rm", "paths": paths}, M{"ev": "commit", "msg": "empty"},
+					M{"ev": "reset", "mode": "mixed", "arg": EscS("HEAD@{0}")},
+					M{"ev": "reset", "mode": "hard", "arg": EscS("HEAD@{3}")})
+				base, err := os.MkdirTemp(scratchBase(), "vsub")
+				if err != nil {
+					panic(err)
+				}
+				tr := runScenario(goit, base, c.T, sc, obs)
+				c.Add(tr, 540)
+				os.RemoveAll(base)
 			}
-			cx.InfraErr = append(cx.InfraErr, infra...)
-			smu.Unlock()
 		}})
 	}
-	for _, s := range scs {
-		s := s
-		add("damage-scenario "+s.Name, func(goit string, rng *rand.Rand) ([]M, map[string][]byte, int) { return s.Steps, nil, s.TZ })
-	}
-	prof := baseProfile("dmgrandom")
-	prof.Steps = 18
-	prof.Hostile = 0
-	withW(prof, "remove", 1, "rmdir", 0, "reset", 2, "rm", 1)
-	for i := 0; i < nRandom; i++ {
-		i := i
-		add(fmt.Sprintf("damage-random %d", i), func(goit string, rng *rand.Rand) ([]M, map[string][]byte, int) {
-			base, _ := os.MkdirTemp(scratchBase(), "vdr")
-			defer os.RemoveAll(base)
-			p := *prof
-			tr := runRandom(goit, base, NewTables(), &p, rng, fmt.Sprintf("dmg#%d", i))
-			return tr.Events, tr.Contents, tr.R.TZ
-		})
-	}
-	cx.runJobs(jobs, "GoitTrace")
-	cx.Extra["fs_cases"] = stats.Cases
-	cx.Extra["damage_cases"] = stats.Cases
-	cx.Extra["by_file_class"] = stats.ByClass
-	cx.Extra["by_mutation"] = stats.ByKind
-	cx.Extra["max_rss_kb"] = stats.MaxRSSKB
-	if len(stats.Samples) > 0 {
-		cx.Samples = stats.Samples
-	}
-	return cx.finish("fault_enumeration",
-		"damage case = one file of a repository Goit produced (object, index, HEAD, branch, config, reflog) with one mutation: every truncation, every single-byte deletion, single-byte substitutions, swap of two object files, generator-made arbitrary bytes (exhaustive over offsets for files up to the tier's budget, seeded sample beyond); on every damaged repository all read-only commands, cat-file, restore and reset --hard are run; evaluations = damage cases judged by TLC against C19_Total / C19_NoWrongData",
-		[]string{"arbitrary bytes come from grammar-aware and random generators, not from coverage-guided fuzzing (outside this technique family)", "allocation guard = max RSS of the process under 1 GiB, hang guard = 5 s timeout", "projector is trusted"})
-}
-
-func init() {
-	plans["C19"] = damagePlan
+	return jobs
 }
